@@ -1,6 +1,7 @@
 import FsutilModel.Sender
 import FsutilModel.Model.SendProto
 import FsutilModel.SenderStats
+import FsutilModel.Lemmas.C06Term
 /-! # C06 — Sender speaks the documented wire protocol -/
 namespace Fsm.C06
 open S
@@ -35,6 +36,18 @@ theorem one_end_marker (v : List (Bool × Bytes)) (es : List Ev) (s : St) (h : r
 
 /-- non-vacuity: a run announcing one regular 3-byte file, requested, opened, sent in chunks 2+1 and terminated -/
 example : (run (init [(true, [1, 2, 3])]) [.sendStat, .recvReq 0, .sendEnd, .open_ 0, .data 0 2, .data 0 1, .term 0]).isSome = true := by
+  decide
+
+/-- Exactly one terminator: in every reachable state the number of terminators (empty DATA) sent for an
+id is 1 if its answer is finished and 0 otherwise — never two, and never one in the middle of the
+content (a DATA packet that carries content is not empty). -/
+theorem one_terminator_per_id (v : List (Bool × Bytes)) (es : List Ev) (s : St) (h : run (init v) es = some s) (id : Nat) :
+    terms id s.out = if s.phase id = .finished then 1 else 0 :=
+  termInv_run es _ _ (inv_init v) (termInv_init v) h id
+
+/-- non-vacuity: after the run above the one terminator of id 0 is counted, and none for id 1 -/
+example : ((run (init [(true, [1, 2, 3])]) [.sendStat, .recvReq 0, .sendEnd, .open_ 0, .data 0 2, .data 0 1, .term 0]).map
+    fun s => (terms 0 s.out, terms 1 s.out)) = some (1, 0) := by
   decide
 
 end Fsm.C06
